@@ -851,16 +851,18 @@ func judgeMulti(comp string, cl, rq []multi, extra []kv, got []kv, fold bool, ex
 	return out
 }
 
-func (cf *config) pathWith(reqWins bool) string {
+// pathWith composes the path. mode 0: request level wins (the documented rule); 1: client level
+// wins; 2: request level wins unless its value is empty (classification of observed failures).
+func (cf *config) pathWith(mode int) string {
 	val := func(name string) (string, bool) {
 		var a, b []single
-		if reqWins {
+		if mode != 1 {
 			a, b = cf.Req.PathP, cf.Client.PathP
 		} else {
 			a, b = cf.Client.PathP, cf.Req.PathP
 		}
 		for _, s := range a {
-			if s.K == name {
+			if s.K == name && !(mode == 2 && s.V == "") {
 				return s.V, true
 			}
 		}
@@ -949,15 +951,17 @@ func (cf *config) judge(p *parsed) []finding {
 			map[string]any{"expected": cf.Method, "received": p.Method}})
 	}
 	// path
-	if want := cf.pathWith(true); p.Path != want {
+	if want := cf.pathWith(0); p.Path != want {
 		det := map[string]any{"template": cf.rawTemplate(), "client": cf.Client.PathP, "request": cf.Req.PathP,
 			"expected": strconv.QuoteToASCII(want), "received": strconv.QuoteToASCII(p.Path), "raw_uri": strconv.QuoteToASCII(p.RawURI)}
 		switch {
+		case p.Path == cf.pathWith(2):
+			out = append(out, finding{"precedence|path-param|empty-request-value", "an empty request-level path parameter did not override the client-level value", det})
+		case p.Path == cf.pathWith(1):
+			out = append(out, finding{"precedence|path-param", "client-level path parameter won over the request-level one", det})
 		case cf.prefixNames():
 			out = append(out, finding{"fidelity|path-param|prefix-names",
 				"a placeholder was filled with the value of a parameter whose name is a prefix of its name", det})
-		case p.Path == cf.pathWith(false):
-			out = append(out, finding{"precedence|path-param", "client-level path parameter won over the request-level one", det})
 		default:
 			out = append(out, finding{"fidelity|path-param|altered|" + cf.pathClass(), "path differs from template with parameters substituted", det})
 		}
